@@ -87,8 +87,7 @@ def run_case(args):
     if br is not None:
         a = core.driver_batch([br], timeout=600)[0]
         if a.startswith("ok "):
-            model = [None if part == "N" else ([] if part == "E" else sorted(set(core.unhexs(h) for h in part.split(","))))
-                     for part in a[3:].split(" ; ")]
+            model = [complete.parse_bashrt_part(part)[0] for part in a[3:].split(" ; ")]
     return args, "ok", (meta, res, nexts, out, model)
 
 
